@@ -130,6 +130,8 @@ def parse_tlc_log(text):
     elif "Error:" in text or "error" in text.lower():
         i = text.find("Error:")
         info["error"] = text[i:i + 3000] if i >= 0 else text[-3000:]
+    im = re.search(r"Finished computing initial states: (\d+) distinct state", text)
+    info["initial"] = int(im.group(1)) if im else 1
     dm = re.search(r"The depth of the complete state graph search is (\d+)", text)
     if dm:
         info["diameter"] = int(dm.group(1))
@@ -207,7 +209,7 @@ def run_model(name, module, constants, invariants, binp=None, workers=8, timeout
             want = (info["distinct"] or 0) - int(expect_cases.split("-")[1])
         else:
             want = {"distinct": info["distinct"], True: info["distinct"],
-                    "transitions": (info["states_generated"] or 0) - 1}[expect_cases]
+                    "transitions": (info["states_generated"] or 0) - info.get("initial", 1)}[expect_cases]
         if res["summary"]["cases"] != want:
             raise ToolError("case count mismatch in %s: TLC promised %s cases (%s), harness replayed %s"
                             % (name, want, expect_cases, res["summary"]["cases"]))
